@@ -254,6 +254,13 @@ def run(ctx):
     dec = [n for n in tcfg.live_nodes() if n.kind == "stmt" and "instream.decode()" in src(n.ast)]
     ctx.ob("C14.TYPE", ti, "bytes input is decoded first", len(dec) == 1 and any(tv and "bytes" in t for t, tv in tf.at(dec[0])), construct="bytes decode")
 
+    # ---------------------------------------------------------------- C14.ARGS / C14.PRESENCE
+    from ..rules_common import check_call_arguments, check_presence_tests, ARG_SCOPE
+    check_call_arguments(ctx, "C14.ARGS", "C14")
+    from ..rules_common import check_effect_tables
+    check_effect_tables(ctx, "C14")
+    check_presence_tests(ctx, "C14.PRESENCE", classes=ARG_SCOPE.get("C14", []))
+
 
 def justify(ctx):
     """Static side conditions behind the CHECKED suppressions."""
